@@ -52,6 +52,10 @@ pub struct VGen<'r> {
     has_enum: bool,
     globals: Vec<VarInfo>,
     funcs: Vec<FnSig>,
+    /// per struct: its methods (name, return type, `in` parameter types)
+    methods: Vec<Vec<(String, G, Vec<G>)>>,
+    /// function templates `template<typename T> T name(T a, T b[, bool c])`: (name, takes a bool selector)
+    templates: Vec<(String, bool)>,
 }
 
 const KINDS: [T; 4] = [T::Int, T::Uint, T::Float, T::Bool];
@@ -69,7 +73,7 @@ fn rank(t: T) -> u32 {
 
 impl<'r> VGen<'r> {
     pub fn new(rng: &'r mut Rng, opts: VGenOpts) -> Self {
-        VGen { rng, opts, counter: 0, structs: Vec::new(), has_enum: false, globals: Vec::new(), funcs: Vec::new() }
+        VGen { rng, opts, counter: 0, structs: Vec::new(), has_enum: false, globals: Vec::new(), funcs: Vec::new(), methods: Vec::new(), templates: Vec::new() }
     }
 
     fn fresh(&mut self, p: &str) -> String {
@@ -411,7 +415,23 @@ impl<'r> VGen<'r> {
                     }
                 }
             }
-            16 | 17 => match self.call(Some(&G::N(t, n)), d, scope) {
+            16 => {
+                // a method of a struct-typed variable, or an instantiation of a function template
+                if let Some(c) = self.method_call(Some(&G::N(t, n)), d, scope) {
+                    return c;
+                }
+                if !self.templates.is_empty() && (t != T::Bool) {
+                    let (name, sel) = self.rng.pick(&self.templates).clone();
+                    let (x, y) = (self.exact_nonliteral(t, n, d, scope), self.exact_nonliteral(t, n, d, scope));
+                    let targ = if self.rng.chance(1, 3) { format!("<{}>", self.tname(&G::N(t, n))) } else { String::new() };
+                    return if sel { format!("{}{}({}, {}, {})", name, targ, x, y, self.exact(T::Bool, 1, d, scope)) } else { format!("{}{}({}, {})", name, targ, x, y) };
+                }
+                match self.call(Some(&G::N(t, n)), d, scope) {
+                    Some(c) => c,
+                    None => self.leaf(t, n, scope),
+                }
+            }
+            17 => match self.call(Some(&G::N(t, n)), d, scope) {
                 Some(c) => c,
                 None => self.leaf(t, n, scope),
             },
@@ -564,6 +584,33 @@ impl<'r> VGen<'r> {
         Some(format!("{}({})", f.name, args.join(", ")))
     }
 
+    /// `var.method(args)` for a struct-typed variable in scope whose struct has a method of that return type
+    fn method_call(&mut self, ret: Option<&G>, d: u32, scope: &[VarInfo]) -> Option<String> {
+        let mut cands: Vec<(String, String, Vec<G>)> = Vec::new();
+        for v in self.scope_vars(scope) {
+            if let G::St(i) = &v.ty {
+                for (mn, mr, ps) in self.methods.get(*i).cloned().unwrap_or_default() {
+                    if ret.map(|r| *r == mr).unwrap_or(true) && v.assignable {
+                        cands.push((v.name.clone(), mn, ps));
+                    }
+                }
+            }
+        }
+        if cands.is_empty() {
+            return None;
+        }
+        let (obj, m, ps) = self.rng.pick(&cands).clone();
+        let mut args = Vec::new();
+        for g in &ps {
+            let a = self.expr_of(g, d.min(1), scope);
+            if a.is_empty() {
+                return None;
+            }
+            args.push(a);
+        }
+        Some(format!("{}.{}({})", obj, m, args.join(", ")))
+    }
+
     fn stmt(&mut self, depth: u32, scope: &mut Vec<VarInfo>, in_loop: bool, ret: &G, ind: &str, out: &mut String) {
         let d = self.opts.max_depth;
         let inner = format!("{}    ", ind);
@@ -623,7 +670,8 @@ impl<'r> VGen<'r> {
                 }
             }
             8 => {
-                if let Some(c) = self.call(None, 1, scope) {
+                let c = if self.rng.chance(1, 2) { self.method_call(None, 1, scope).or_else(|| self.call(None, 1, scope)) } else { self.call(None, 1, scope) };
+                if let Some(c) = c {
                     out.push_str(&format!("{}{};\n", ind, c));
                 }
             }
@@ -631,6 +679,8 @@ impl<'r> VGen<'r> {
                 if in_loop && self.rng.chance(1, 2) {
                     let kw = if self.rng.chance(1, 2) { "break" } else { "continue" };
                     out.push_str(&format!("{}if ({})\n{}{{\n{}{};\n{}}}\n", ind, self.exact(T::Bool, 1, 1, scope), ind, inner, kw, ind));
+                } else if *ret == G::Void && self.rng.chance(1, 2) {
+                    out.push_str(&format!("{}if ({})\n{}{{\n{}return;\n{}}}\n", ind, self.exact(T::Bool, 1, 1, scope), ind, inner, ind));
                 } else if *ret != G::Void && self.rng.chance(1, 2) {
                     let e = self.expr_of(ret, d, scope);
                     if !e.is_empty() {
@@ -653,7 +703,13 @@ impl<'r> VGen<'r> {
                 let n = 1 + self.rng.below(3);
                 let t = if self.rng.chance(1, 3) { T::Uint } else { T::Int };
                 let lim = if t == T::Uint { format!("{}u", n) } else { n.to_string() };
-                out.push_str(&format!("{}for ({} {} = 0; {} < {}; ++{})\n{}{{\n", ind, t.name(), i, i, lim, i, ind));
+                if self.rng.chance(1, 5) {
+                    // no init / condition / increment: the counter lives outside, the loop ends by `break`
+                    out.push_str(&format!("{}{} {} = 0;\n{}for (;;)\n{}{{\n{}if ({} >= {})\n{}{{\n{}    break;\n{}}}\n{}{}++;\n", ind, t.name(), i, ind, ind, inner, i, lim, inner, inner, inner, inner, i));
+                    scope.push(VarInfo { name: i.clone(), ty: G::N(t, 1), assignable: false });
+                } else {
+                    out.push_str(&format!("{}for ({} {} = 0; {} < {}; ++{})\n{}{{\n", ind, t.name(), i, i, lim, i, ind));
+                }
                 let mut sc = scope.clone();
                 sc.push(VarInfo { name: i, ty: G::N(t, 1), assignable: false });
                 self.block(depth - 1, &mut sc, true, ret, &inner, out);
@@ -857,9 +913,56 @@ impl<'r> VGen<'r> {
                     text.push_str(&format!("    {};\n", self.decl(&g, &mn)));
                     members.push((mn, g));
                 }
+                self.structs.push((name, members.clone()));
+                // methods: bodies see the data members as variables; a later method may call an earlier one
+                let mut sigs: Vec<(String, G, Vec<G>)> = Vec::new();
+                let nmeth = self.rng.below(3);
+                let saved_funcs = self.funcs.clone();
+                for _ in 0..nmeth {
+                    let mname = self.fresh("me");
+                    let ret = if self.rng.chance(1, 4) { G::Void } else { self.numeric() };
+                    let np = self.rng.below(3) as usize;
+                    let mut scope: Vec<VarInfo> = members.iter().map(|(n, g)| VarInfo { name: n.clone(), ty: g.clone(), assignable: true }).collect();
+                    let mut decl = Vec::new();
+                    let mut ptys = Vec::new();
+                    for _ in 0..np {
+                        let g = self.numeric();
+                        let pn = self.fresh("q");
+                        decl.push(self.decl(&g, &pn));
+                        scope.push(VarInfo { name: pn, ty: g.clone(), assignable: true });
+                        ptys.push(g);
+                    }
+                    let mut body = String::new();
+                    for _ in 0..(1 + self.rng.below(3)) {
+                        self.stmt(1, &mut scope, false, &ret, "        ", &mut body);
+                    }
+                    if ret != G::Void {
+                        let e = self.expr_of(&ret, self.opts.max_depth, &scope);
+                        body.push_str(&format!("        return {};\n", e));
+                    }
+                    text.push_str(&format!("    {} {}({})\n    {{\n{}    }}\n", self.tname(&ret), mname, decl.join(", "), body));
+                    // callable by its bare name from the methods that follow
+                    self.funcs.push(FnSig { name: mname.clone(), ret: ret.clone(), params: ptys.iter().enumerate().map(|(k, g)| (format!("a{}", k), 0u8, g.clone(), false)).collect(), overloaded: false });
+                    sigs.push((mname, ret, ptys));
+                }
+                self.funcs = saved_funcs;
+                self.methods.push(sigs);
                 text.push_str("};\n");
                 out.push_str(&text);
-                self.structs.push((name, members));
+            }
+        }
+        // function templates (instantiated at their call sites)
+        if self.rng.chance(1, 3) {
+            for _ in 0..(1 + self.rng.below(2)) {
+                let name = self.fresh("tm");
+                let sel = self.rng.chance(1, 2);
+                if sel {
+                    out.push_str(&format!("template<typename T> T {}(T a, T b, bool c)\n{{\n    T r = c ? a : b;\n    return c ? r : (a + b);\n}}\n", name));
+                } else {
+                    let body = *self.rng.pick(&["return a * a - b;", "T r = a + b;\n    r += a;\n    return r;", "return -a + b;"]);
+                    out.push_str(&format!("template<typename T> T {}(T a, T b)\n{{\n    {}\n}}\n", name, body));
+                }
+                self.templates.push((name, sel));
             }
         }
         let ng = self.rng.below(4);
